@@ -4,7 +4,7 @@ from vlib import *
 from checks.enc_common import line_differential, replay_lines
 
 LEVEL = "proof"
-THEOREMS = ["range_call_wellformed", "range_in_bounds", "get_in_range", "derive_seed_fn", "instance_seed_fn",
+THEOREMS = ["range_call_wellformed", "range_in_bounds", "get_in_range", "derive_seed_fn", "stream_reproducible", "instance_seed_fn",
             "pool_reports", "schedule_invariant", "schedule_complete"]
 
 
